@@ -17,7 +17,9 @@ import (
 func algorithmHasher(i ipmi.IntegrityAlgorithm, g AdditionalKeyMaterialGenerator) (hash.Hash, error) {
 	switch i {
 	case ipmi.IntegrityAlgorithmNone:
-		return nil, nil
+		// a nil hash would have us send packets flagged as authenticated
+		// without an AuthCode, and accept anything in return
+		return nil, fmt.Errorf("unsupported integrity algorithm: %v", i)
 	case ipmi.IntegrityAlgorithmHMACSHA196:
 		return &truncatedHash{
 			Hash:   hmac.New(sha1.New, g.K(1)),
